@@ -496,6 +496,10 @@ func famTamper(r *Rand) *seqScenario {
 	tamperSome := func() {
 		for k := 1 + r.Intn(2); k > 0; k-- {
 			key := keys[r.Intn(len(keys))]
+			if r.Chance(45) {
+				// exactly what the next load reads: the right edge of the committed tree
+				key = []string{"@edgedata", "@edgedata", "@edgehash0", "@edgehash1", "@edgenames"}[r.Intn(5)]
+			}
 			mut := []string{"delete", "truncate", "flip", "flip", "copyfrom", "rollback"}[r.Intn(6)]
 			if mut == "rollback" {
 				// only keys that are ever rewritten or removed have earlier versions
@@ -517,7 +521,7 @@ func famTamper(r *Rand) *seqScenario {
 		b.cmd(seqCmd{Op: "run", Inst: 0, Max: 1 + r.Intn(9)})
 		if r.Chance(60) {
 			// the objects a load reads last: the right-edge hash tiles and the right-edge data tile
-			edge := []string{"@hashtile", "@hashtile", "tile/1/000.p/1", "@datatile", "tile/0/000"}
+			edge := []string{"@hashtile", "@edgehash0", "@edgehash1", "@edgedata", "@datatile", "tile/0/000"}
 			b.cmd(seqCmd{Op: "tamper", Key: edge[r.Intn(len(edge))], Mut: []string{"flip", "truncate", "delete", "copyfrom"}[r.Intn(4)], V: int64(r.Intn(1 << 20)), Name: keys[r.Intn(len(keys))]})
 		} else {
 			tamperSome()
